@@ -1,7 +1,7 @@
 (* Dispatch: the single entry point [run : sx -> sx] of the executable model. *)
 From Coq Require Import List ZArith NArith Bool.
 From Coq Require Import QArith.
-From SV Require Import Sx Str Omap Beat Props Notes Group Msd Simfile Engine Generated.Tables.
+From SV Require Import Sx Str Omap Beat Props Notes Group Msd Simfile Engine TimingSrc Generated.Tables.
 Open Scope Z_scope.
 Import ListNotations.
 Open Scope Z_scope.
@@ -154,6 +154,15 @@ Definition run_engine (cmd : Z) (args : list sx) : sx :=
   | _, _ => bad_request
   end.
 
+Definition run_tsrc (cmd : Z) (args : list sx) : sx :=
+  match cmd, args with
+  | 150, [sk; sf; ck; c; ign] =>
+      do sk' <- un_skind sk; do sf' <- un_props sf; do ck' <- un_ckind ck; do c' <- un_props c; do ign' <- un_bool ign;
+      ok (L [sx_tri sx_source (timing_source sk' sf' ck' c'); sx_tri sx_tdata_s (timing_data sk' sf' ck' c');
+             sx_tri sx_dbpm (displaybpm sk' sf' ck' c' ign')])
+  | _, _ => bad_request
+  end.
+
 Definition dispatch_request (req : sx) : sx :=
   match req with
   | L (A cmd :: args) =>
@@ -162,6 +171,7 @@ Definition dispatch_request (req : sx) : sx :=
       else if (70 <=? cmd) && (cmd <? 90) then run_notes cmd args
       else if (90 <=? cmd) && (cmd <? 100) then run_group cmd args
       else if (110 <=? cmd) && (cmd <? 120) then run_engine cmd args
+      else if (150 <=? cmd) && (cmd <? 160) then run_tsrc cmd args
       else if (180 <=? cmd) && (cmd <? 190) then run_props cmd args
       else bad_request
   | _ => bad_request
